@@ -19,7 +19,7 @@ What is modelled (and what it abstracts of the Go memory model, https://go.dev/r
 
 Ownership tokens.  kafka-go also synchronises by hand-off (a channel close/receive, `sync.Once`,
 `sync.WaitGroup`, "the Batch owns the Conn read lock until Close").  These are represented as
-additional *virtual* mutexes listed one by one in go/extract/access_annotations.json: the party that
+additional *virtual* mutexes listed one by one in go/extract/accesses/access_annotations.json: the party that
 may touch the data "holds" the token, a hand-off is release→acquire of the token.  That a hand-off
 really is exclusive and really synchronises is an assumption recorded with each annotation (it is the
 part of the abstraction validated only by the race-detector runs).
